@@ -470,6 +470,9 @@ def finish(chk, prop, tier, base_seed, jobs, records, harness_errors, det_checke
                 h['count'] += 1
             else:
                 violations.append((r['idx'], v, r))
+    inconclusive = sum(1 for r in records if r.get('inconclusive'))
+    if records and inconclusive > max(3, len(records) // 50):
+        harness_errors.append(f'{inconclusive} of {len(records)} runs hit a simulator cap (inconclusive)')
     principal_missing = [f for f in getattr(chk, 'principal_faults', ()) if not faults.get(f)]
     if principal_missing and records:
         harness_errors.append(f'principal fault kind(s) never fired in this batch: {principal_missing}')
@@ -478,11 +481,24 @@ def finish(chk, prop, tier, base_seed, jobs, records, harness_errors, det_checke
 
     replay_path = None
     shrink_info = None
-    if violations and not harness_errors:
+    overridden_harness_errors = []
+    if violations:
         violations.sort(key=lambda x: x[0])
         idx, v, r = violations[0]
         hs = idx % jobs % HASH_CLASSES
         replay_path, shrink_info = make_replay(chk, prop, tier, base_seed, idx, hs, v, r)
+        if harness_errors:
+            # A violation that reproduces exactly (same oracle, same event-log digest) in a fresh
+            # interpreter stands on its own, whatever went wrong in other runs of the batch
+            # (typically: the code under test keeps state across run_tasks calls, which shows up as
+            # re-execution mismatches or stale simulated-OS objects in later runs of a worker).
+            if (shrink_info or {}).get('fresh_process_replay') == 'reproduced':
+                overridden_harness_errors = harness_errors
+                harness_errors = []
+            else:
+                violations_unconfirmed = len(violations)
+                violations = []
+                harness_errors.append(f'{violations_unconfirmed} violating run record(s) could not be confirmed by a fresh-process replay')
 
     coverage = {
         'evaluations': len(records),
@@ -507,6 +523,8 @@ def finish(chk, prop, tier, base_seed, jobs, records, harness_errors, det_checke
         'exhaustive': bool(getattr(chk, 'exhaustive', False)),
         'repo': repo_rev(),
         'harness_errors': harness_errors[:5],
+        'inconclusive_runs': inconclusive,
+        'harness_errors_overridden_by_confirmed_violation': [h[:300] for h in overridden_harness_errors[:3]],
     }
     if violations:
         by_code: dict[str, dict] = {}
